@@ -26,8 +26,8 @@ theorem no_panic_of_guards (g : Guards) (hg : g.all = true) (i : Input) : (runWi
   all_goals
     cases ho : i.oci <;> cases hb : i.blob <;> cases hs : i.sig <;> cases hm : i.manager <;>
       (simp [vVerify, vVerifyBlob, vVerifyBlobGenError, skipVerify, nVerify, nVerifyBlob, userMetadata, nilArgs, verifyWithStmt,
-        ho, hb, hs, hm, blobStmt, g1, g2, g3, g4, g5, g6, g7, g8, g9, g10, g11, failNoOutcome, failWith, okWith, panic] <;> cases hn : i.named <;> simp [vVerify, vVerifyBlob, vVerifyBlobGenError, skipVerify, nVerify, nVerifyBlob, userMetadata, nilArgs, verifyWithStmt,
-        ho, hb, hs, hm, hn, blobStmt, g1, g2, g3, g4, g5, g6, g7, g8, g9, g10, g11, failNoOutcome, failWith, okWith, panic])
+        ho, hb, hs, hm, blobStmt, g1, g2, g3, g4, g5, g6, g7, g8, g9, g10, g11, failNoOutcome, failWith, okWith, panic, hostile] <;> cases hn : i.named <;> simp [vVerify, vVerifyBlob, vVerifyBlobGenError, skipVerify, nVerify, nVerifyBlob, userMetadata, nilArgs, verifyWithStmt,
+        ho, hb, hs, hm, hn, blobStmt, g1, g2, g3, g4, g5, g6, g7, g8, g9, g10, g11, failNoOutcome, failWith, okWith, panic, hostile])
 
 theorem no_panic (i : Input) : (run i).panicked = false := no_panic_of_guards _ guards_present i
 
@@ -64,7 +64,7 @@ theorem err_consistency (i : Input) (hf : i.fuzz = false)
   rcases he with he | he | he <;> simp only [hf, he, Bool.false_eq_true, if_false]
   all_goals
     cases ho : i.oci <;> cases hb : i.blob <;> cases hs : i.sig <;> cases hm : i.manager <;>
-      (simp [vVerify, vVerifyBlob, vVerifyBlobGenError, verifyWithStmt, ho, hb, hs, hm, blobStmt, g9, g10, g11, failNoOutcome, failWith, okWith, panic] <;> cases hn : i.named <;> simp [vVerify, vVerifyBlob, vVerifyBlobGenError, verifyWithStmt, ho, hb, hs, hm, hn, blobStmt, g9, g10, g11, failNoOutcome, failWith, okWith, panic])
+      (simp [vVerify, vVerifyBlob, vVerifyBlobGenError, verifyWithStmt, ho, hb, hs, hm, blobStmt, g9, g10, g11, failNoOutcome, failWith, okWith, panic, hostile] <;> cases hn : i.named <;> simp [vVerify, vVerifyBlob, vVerifyBlobGenError, verifyWithStmt, ho, hb, hs, hm, hn, blobStmt, g9, g10, g11, failNoOutcome, failWith, okWith, panic, hostile])
 
 /-- the wrappers never report success without an outcome that is free of error -/
 theorem wrapper_success_has_clean_outcome (i : Input) (hf : i.fuzz = false)
@@ -79,8 +79,8 @@ theorem wrapper_success_has_clean_outcome (i : Input) (hf : i.fuzz = false)
   all_goals
     cases ho : i.oci <;> cases hb : i.blob <;> cases hs : i.sig <;> cases hm : i.manager <;>
       (simp [vVerify, vVerifyBlob, skipVerify, nVerify, nVerifyBlob, verifyWithStmt, ho, hb, hs, hm, blobStmt,
-        g3, g6, g8, g9, g10, g11, failNoOutcome, failWith, okWith, panic] <;> cases hn : i.named <;> simp [vVerify, vVerifyBlob, skipVerify, nVerify, nVerifyBlob, verifyWithStmt, ho, hb, hs, hm, hn, blobStmt,
-        g3, g6, g8, g9, g10, g11, failNoOutcome, failWith, okWith, panic])
+        g3, g6, g8, g9, g10, g11, failNoOutcome, failWith, okWith, panic, hostile] <;> cases hn : i.named <;> simp [vVerify, vVerifyBlob, skipVerify, nVerify, nVerifyBlob, verifyWithStmt, ho, hb, hs, hm, hn, blobStmt,
+        g3, g6, g8, g9, g10, g11, failNoOutcome, failWith, okWith, panic, hostile])
 
 /-- the statement lookup by name and the lookup of the global statement (empty `TrustPolicyName`)
 are both behind the one nil guard: unless the named statement is of level skip (which a global
@@ -90,7 +90,7 @@ theorem policy_name_irrelevant (g : Guards) (i : Input) (b : Bool) (hs : i.blob 
   unfold runWith
   cases hf : i.fuzz <;> simp [hf]
   cases hb : i.blob <;> simp_all <;>
-  cases he : i.entry <;> simp [he, hb, blobStmt, vVerify, vVerifyBlob, vVerifyBlobGenError, skipVerify, nVerify, nVerifyBlob, userMetadata]
+  cases he : i.entry <;> simp [he, hb, blobStmt, hostile, withinCap, vVerify, vVerifyBlob, vVerifyBlobGenError, skipVerify, nVerify, nVerifyBlob, userMetadata]
 
 /-- a verifier without blob document answers both lookups alike: an error, no panic, no outcome -/
 theorem missing_document_same_for_both_lookups (i : Input) (hf : i.fuzz = false) (hb : i.blob = .missing)
@@ -108,11 +108,43 @@ theorem missing_document_same_for_both_lookups (i : Input) (hf : i.fuzz = false)
 theorem workers_irrelevant (g : Guards) (i : Input) (n : Nat) : runWith g { i with workers := n } = runWith g i := by
   unfold runWith
   cases hf : i.fuzz <;> simp [hf]
-  cases he : i.entry <;> simp [he, blobStmt, vVerify, vVerifyBlob, vVerifyBlobGenError, skipVerify, nVerify, nVerifyBlob, userMetadata]
+  cases he : i.entry <;> simp [he, blobStmt, hostile, withinCap, vVerify, vVerifyBlob, vVerifyBlobGenError, skipVerify, nVerify, nVerifyBlob, userMetadata]
 
 /-- in particular: no configuration, asked for the global blob statement from several goroutines, panics -/
 theorem no_panic_global_lookup_shared (i : Input) (n : Nat) : (run { i with named := false, workers := n }).panicked = false :=
   no_panic _
+
+/-- **size caps**: whatever a store announces, content is asked for only when the announcing
+descriptor claims no more than the cap that applies to it (4 MiB manifests, 32 MiB envelopes) -/
+theorem cap_respected (i : Input) (h : (run i).fetched = true) : i.claimed ≤ capOf i.site := by
+  have hg := guards_present
+  simp only [Guards.all, Bool.and_eq_true] at hg
+  obtain ⟨⟨⟨⟨⟨⟨⟨⟨⟨⟨g1, g2⟩, g3⟩, g4⟩, g5⟩, g6⟩, g7⟩, g8⟩, g9⟩, g10⟩, g11⟩ := hg
+  revert h
+  unfold run runWith
+  cases hf : i.fuzz <;> simp
+  cases he : i.entry <;> simp
+  case hostileStore => simp [hostile, withinCap]
+  all_goals
+    cases ho : i.oci <;> cases hb : i.blob <;> cases hs : i.sig <;> cases hm : i.manager <;>
+      (simp [vVerify, vVerifyBlob, vVerifyBlobGenError, skipVerify, nVerify, nVerifyBlob, userMetadata, nilArgs, verifyWithStmt,
+        ho, hb, hs, hm, blobStmt, g1, g2, g3, g4, g5, g6, g7, g8, g9, g10, g11, failNoOutcome, failWith, okWith, panic] <;>
+       cases hn : i.named <;>
+       simp [vVerify, vVerifyBlob, vVerifyBlobGenError, skipVerify, nVerify, nVerifyBlob, userMetadata, nilArgs, verifyWithStmt,
+        ho, hb, hs, hm, hn, blobStmt, g1, g2, g3, g4, g5, g6, g7, g8, g9, g10, g11, failNoOutcome, failWith, okWith, panic])
+
+/-- a descriptor claiming more than its cap is refused unread - for every claim, however large -/
+theorem oversized_never_read (i : Input) (hf : i.fuzz = false) (he : i.entry = .hostileStore)
+    (h : capOf i.site < i.claimed) : (run i).fetched = false := by
+  have : ¬ i.claimed ≤ capOf i.site := by omega
+  simp [run, runWith, hf, he, hostile, withinCap, this]
+
+/-- ... and a claim within the cap (a negative one included: the reader refuses it without
+allocating) is looked at: the cap is not enforced by refusing everything -/
+theorem within_cap_is_read (i : Input) (hf : i.fuzz = false) (he : i.entry = .hostileStore)
+    (hs : i.site = .referrer ∨ i.site = .sigManifest ∨ i.site = .sigBlob) (h : i.claimed ≤ capOf i.site) :
+    (run i).fetched = true := by
+  rcases hs with hs | hs | hs <;> simp [run, runWith, hf, he, hostile, withinCap, hs] <;> simpa [hs] using h
 
 /-- **C12 (modelled part)**: every clause of `Holds` is true of the model's behaviour -/
 theorem model_holds (i : Input) : Holds i (run i) = true := by
@@ -122,13 +154,16 @@ theorem model_holds (i : Input) : Holds i (run i) = true := by
   unfold Holds clauses run runWith policySelected
   cases hf : i.fuzz
   · cases he : i.entry <;> simp only [Bool.false_eq_true, if_false]
+    case hostileStore =>
+      simp [Clauses.holds, hostile]
+      cases withinCap i <;> simp
     all_goals
       cases ho : i.oci <;> cases hb : i.blob <;> cases hs : i.sig <;> cases hm : i.manager <;>
         (simp [Clauses.holds, vVerify, vVerifyBlob, vVerifyBlobGenError, skipVerify, nVerify, nVerifyBlob, userMetadata, nilArgs,
           verifyWithStmt, ho, hb, hs, hm, blobStmt, g1, g2, g3, g4, g5, g6, g7, g8, g9, g10, g11, failNoOutcome,
-          failWith, okWith, panic] <;> cases hn : i.named <;> simp [Clauses.holds, vVerify, vVerifyBlob, vVerifyBlobGenError, skipVerify, nVerify, nVerifyBlob, userMetadata, nilArgs,
+          failWith, okWith, panic, hostile] <;> cases hn : i.named <;> simp [Clauses.holds, vVerify, vVerifyBlob, vVerifyBlobGenError, skipVerify, nVerify, nVerifyBlob, userMetadata, nilArgs,
           verifyWithStmt, ho, hb, hs, hm, hn, blobStmt, g1, g2, g3, g4, g5, g6, g7, g8, g9, g10, g11, failNoOutcome,
-          failWith, okWith, panic])
+          failWith, okWith, panic, hostile])
   · simp [Clauses.holds]
 
 /-- non-vacuity: the two configurations that panicked before the repairs are now plain results -/
@@ -146,6 +181,12 @@ example : Holds { entry := .concurrent, oci := .enforce, blob := .enforce, manag
     { panicked := true, err := false, outcome := none, consistent := false } = false := by decide
 example : Holds { entry := .loader, oci := .enforce, blob := .enforce, manager := true, sig := .valid, fuzz := true, label := "", data := "" }
     { panicked := true, err := false, outcome := none, consistent := false } = false := by decide
+/-- a referrer that claims 768 MiB is not read; one that claims exactly the cap is; reading the first is a violation -/
+example : (run { entry := .hostileStore, oci := .enforce, blob := .enforce, manager := true, sig := .valid, site := .referrer, claimed := 805306368, fuzz := false, label := "", data := "" }).fetched = false := by decide
+example : (run { entry := .hostileStore, oci := .enforce, blob := .enforce, manager := true, sig := .valid, site := .referrer, claimed := 4194304, fuzz := false, label := "", data := "" }).fetched = true := by decide
+example : (run { entry := .hostileStore, oci := .enforce, blob := .enforce, manager := true, sig := .valid, site := .sigBlob, claimed := 4194305, fuzz := false, label := "", data := "" }).fetched = true := by decide
+example : Holds { entry := .hostileStore, oci := .enforce, blob := .enforce, manager := true, sig := .valid, site := .referrer, claimed := 805306368, fuzz := false, label := "", data := "" }
+    { panicked := false, err := false, outcome := none, fetched := true, consistent := true } = false := by decide
 /-- `Holds` refutes a panic and an inconsistent pair -/
 example : Holds { entry := .vVerify, oci := .enforce, blob := .missing, manager := true, sig := .garbage, fuzz := false, label := "", data := "" }
     { panicked := false, err := true, outcome := none, consistent := true } = false := by decide
